@@ -175,5 +175,19 @@ CLAIMED["C18"] = dict(
     note="Trusted: Lean kernel, harness/door, Rust's integer parser as modelled, http crate URI handling, HTTP/3 not driven. The reverse "
          "proxy's fixed destination is a code-reading fact exercised by the run, not a theorem about client influence.",
 )
+CLAIMED["C20"] = dict(
+    category="proof",
+    text="Two machine-checked parts and one search. Proved for all inputs: the printed form of a scrubbed request does not depend on "
+         "the values of Authorization / Proxy-Authorization / Cookie (non-interference), other headers are untouched, the scrubbed SNI "
+         "and the debug form of the connection meta do not depend on the credentials label. Decided by the kernel on every run: none "
+         "of the ~310 logging / error-string sites re-extracted from lib/src prints a secret-bearing expression outside a scrubber "
+         "(all_log_sites_clean over the regenerated table; an unscrubbed site breaks the theorem and is named). Searched: ~435 trace-"
+         "level scenarios over every channel and error path with 13 canaries planted in credentials, cookies, SNI labels and the "
+         "configured password. This is the property where proof covers least: absence of leaks in the whole program rests on the "
+         "extractor's taint rules and the canary search.",
+    note="Trusted: Lean kernel, tools/extract.py taint rules and per-file exceptions, harness/door, http crate Debug output. The repair of "
+         "the leaks found (raw requests in six modules, credentials in TcpConnectionMeta and ConnectionMeta debug output) is in /repo.",
+    technique="Lean 4 non-interference theorems for the scrubbers + kernel-decided generated log-site table + dynamic canary search",
+)
 NOT_CLAIMED = {p: "not yet built in this framework (planned, see DESIGN.md section 5)" for p in
-               ["C07", "C16", "C17", "C20"]}
+               ["C07", "C16", "C17"]}
